@@ -98,6 +98,14 @@ def judge(ctx, status: str) -> list[dict]:
                           what="param_value_differs", location=location, expr_kind=ekind, falsy=want in ("0", "", "false", "0.0"))
                 else:
                     stats["undefined_params"] += 1
+                    decl_t = next((q.schema.get("type") for q in target.params if q.name == name and q.location == location), None)
+                    if (not ok and location == "path" and decl_t == "integer" and ctx.config.get("modes") == ["positive"]
+                            and isinstance(got, str) and not got.lstrip("-").isdigit()):
+                        # nothing on the source exchange denotes this value and the generator of an integer parameter cannot
+                        # have produced it either: it comes from somewhere else (e.g. state left over from another derivation)
+                        v("R3", f"link {link['name']}: {location}.{name} = {expr!r} is unresolvable on the source exchange "
+                                f"({p.rec.request.method} {p.rec.request.url} -> {p.status}) but the derived request carries {got!r}, "
+                                f"which is no value of the declared integer parameter", what="foreign_value_for_unresolvable", location=location)
                     if isinstance(got, str) and any(sx in got for sx in SENTINELS):
                         v("R3", f"link {link['name']}: {location}.{name} = {expr!r} is unresolvable on the source exchange but "
                                 f"{got!r} was sent", what="sentinel_on_wire", location=location)
